@@ -126,7 +126,7 @@ func cmdCheck(args []string) {
 		}
 	}
 	exit := reportProperty(ps, res, *tier, seed, t0, !*noEvidence, *repo)
-	if *tier == "thorough" && exit == 0 {
+	if *tier == "thorough" && exit == 0 && os.Getenv("GVC_SKIP_SELFTEST") == "" {
 		// must-fail corpus: every deliberate property-breaking edit must make an obligation fail
 		if n, bad := runSelftest(ps.ID, *repo, false); len(bad) > 0 {
 			for _, b := range bad {
